@@ -17,7 +17,7 @@ RULE = ("one case = one body (operator / assertion / conversion / array access /
         "distinct by (source, inputs); cell = body template x mechanism x effective guard x operand class")
 
 MECHS = ("guarded", "lazy", "block", "lazy_else")     # lazy_else: the body is the callable *false* branch (effective guard = not c)
-OUTER_MECHS = MECHS + ("elif",)        # elif: the body is the second branch of an if/elif chain (effective guard = not e0 and c0)
+OUTER_MECHS = MECHS + ("elif", "dead_else")   # dead_else: the body is the else of `if e0 / elif <public 1>`: never live        # elif: the body is the second branch of an if/elif chain (effective guard = not e0 and c0)
 
 
 def bodies():
@@ -78,7 +78,7 @@ def build(tid, rty, tmpl, mech, depth, bl, res, ins, consts, rnd=None):
     for d in range(depth):
         pre += "c%d = PrivValBool(I[%d])\n" % (d, n + d)
     pre += "alt = PrivVal(I[%d])\n" % (n + depth)
-    if mech == "elif":
+    if mech in ("elif", "dead_else"):
         pre += "e0 = PrivValBool(I[%d])\n" % (n + depth + 1)
     pre += "_ = BranchingValues()\n_.r = alt + 0\n"
     expr = case.expr
@@ -94,6 +94,9 @@ def build(tid, rty, tmpl, mech, depth, bl, res, ins, consts, rnd=None):
             lines = ["def _t%d():" % d] + body + ["    return r", "r = if_then_else(c%d, _t%d, lambda: alt)" % (d, d)]
         elif m == "lazy_else":
             lines = ["def _t%d():" % d] + body + ["    return r", "r = if_then_else(c%d, lambda: alt, _t%d)" % (d, d)]
+        elif m == "dead_else":
+            lines = ["_.r = alt + 0", "if _if(e0, ctx=_):", "    _.r = alt + 1", "if _elif(lambda: 1, ctx=_):", "    _.r = alt + 2", "if _else(ctx=_):"] + body + \
+                    ["    _.r = r", "_endif(ctx=_)", "r = _.r"]
         elif m == "elif":
             lines = ["_.r = alt + 0", "if _if(e0, ctx=_):", "    _.r = alt + 1", "if _elif(lambda: c%d, ctx=_):" % d] + body + ["    _.r = r", "_endif(ctx=_)", "r = _.r"]
         else:
@@ -103,7 +106,7 @@ def build(tid, rty, tmpl, mech, depth, bl, res, ins, consts, rnd=None):
     return case, pre, ung, g
 
 
-def sample_operands(case, tmpl, bl, res, rnd, model, G, want_valid):
+def sample_operands(case, tmpl, bl, res, rnd, model, G, want_valid, p=None):
     """operands for which the body is valid (strict model accepts) / invalid (model raises)"""
     from vf import opcases
     sl = [s for s in opcases.slots(tmpl) if s in ("i", "b", "f")]
@@ -117,7 +120,8 @@ def sample_operands(case, tmpl, bl, res, rnd, model, G, want_valid):
                 if want_valid:
                     ins.append(rnd.choice([0, 1, 2, 3, -1, rnd.randint(-h, h), rnd.randint(0, h), rnd.randint(-int(h ** 0.5) - 1, int(h ** 0.5) + 1)]))
                 else:
-                    ins.append(rnd.choice([0, 0, -1, h + 1, -h - 2, (1 << bl) + rnd.randint(0, 5), -(1 << bl) - 1, 5 << bl, rnd.randint(-h, h), 3, 7]))
+                    ins.append(rnd.choice([0, 0, -1, h + 1, -h - 2, (1 << bl) + rnd.randint(0, 5), -(1 << bl) - 1, 5 << bl, rnd.randint(-h, h), 3, 7] +
+                                          ([p, -p, 2 * p] if p else [])))
             elif s == "b":
                 ins.append(rnd.randint(0, 1))
             else:
@@ -159,7 +163,7 @@ def worker(job):
             consts = [rnd.choice(opcases.const_values(s, bl, res, rnd)) for s in opcases.slots(tmpl) if s not in ("i", "b", "f", "a")]
             probe = opcases.Case(tid, tmpl, bl, res, [0] * sum(1 for s in opcases.slots(tmpl) if s in "ibf"), consts, rty)
             valid = sample_operands(probe, tmpl, bl, res, rnd, model, G, True)
-            invalid = sample_operands(probe, tmpl, bl, res, rnd, model, G, False)
+            invalid = sample_operands(probe, tmpl, bl, res, rnd, model, G, False, p=p)
             if valid is None:
                 R.count("no_valid_operands_found")
                 continue
@@ -168,7 +172,7 @@ def worker(job):
             brnd = random.Random(rnd.random())
             mix_seed = brnd.random()
             case, pre, ung, gsrc = build(tid, rty, tmpl, mech, depth, bl, res, valid, consts, random.Random(mix_seed))
-            tails = [[alt]] if mech != "elif" else [[alt, 0], [alt, 1]]
+            tails = [[alt]] if mech not in ("elif", "dead_else") else [[alt, 0], [alt, 1]]
             base_valid = run(G, N, pre + ung, valid + [1] * depth + tails[0], bl, res, p)
             for oclass, ops in (("valid", valid), ("invalid", invalid)):
                 if ops is None:
@@ -180,6 +184,9 @@ def worker(job):
                     Gd = run(G, N, pre + gsrc, inputs, bl, res, p)
                     eff = all((cv == 0) if mm == "lazy_else" else (cv == 1) for cv, mm in zip(combo, case.mechs)) and (len(tail) == 1 or tail[1] == 0)
                     exp_alt = alt + 1 if (len(tail) == 2 and tail[1] == 1) else alt
+                    if mech == "dead_else":
+                        eff = False
+                        exp_alt = alt + 1 if tail[1] == 1 else alt + 2
                     key = (pre + gsrc, tuple(inputs))
                     cell = "%s|%s|%s|%s" % (tid, mech, "true" if eff else "false", oclass)
                     R.case(cell=cell, key=key, nontrivial=len(Gd.snap["constraints"]) > 0)
@@ -264,8 +271,8 @@ def classify_false_raise(tid, exc, case):
 
 def solver_halves(R, capture, solve, N, tid, rty, tmpl, mech, depth, bl, res, valid, invalid, consts, alt, p, rnd):
     # (a) false guard: the value selected from the other branch is uniquely determined
-    if mech == "elif":
-        return      # the solver halves use the three plain mechanisms
+    if mech in ("elif", "dead_else"):
+        return      # the solver halves use the plain mechanisms
     if rty is not None:
         ops = invalid if (invalid is not None and rnd.random() < 0.5) else valid
         case, pre, ung, gsrc = build(tid, rty, tmpl, mech, depth, bl, res, ops, consts, rnd)
